@@ -80,7 +80,9 @@ class TransformDMA_contract:
         # deep loop nests: no source level has step 1, so the common block is a single element and EVERY level becomes a loop
         dict(src="tsl", dst="tsl", rank=2, depth=2, bits=32, lcb="single"), dict(src="tsl", dst="tsl", rank=1, depth=3, bits=32, lcb="single"),
         # the same 4-level nest with the loop order fixed (bounds strictly decreasing in (dim, depth) order): 1/24 of the paths
-        dict(src="tsl", dst="tsl", rank=2, depth=2, bits=32, lcb="single_sorted")]
+        dict(src="tsl", dst="tsl", rank=2, depth=2, bits=32, lcb="single_sorted"),
+        # element types that do not fill whole bytes: one (i1, i4) resp. two (i12) bytes per element in memory
+        dict(src="tsl", dst="tsl", rank=1, depth=1, bits=1), dict(src="tsl", dst="tsl", rank=1, depth=1, bits=12), dict(src="tsl", dst="tsl", rank=1, depth=2, bits=4)]
     quick = lambda sh: sh["rank"] * sh["depth"] <= 2 or (sh.get("lcb") == "single" and sh["rank"] == 1) or sh.get("lcb") == "single_sorted"
     # the unconstrained 2 x 2 shape (4 symbolic levels per side, every ordering and every common block) does not finish
     # within an hour on 16 cores: NOT covered; its deep-nest sub-cases are the `lcb` shapes
@@ -127,7 +129,7 @@ class TransformDMA_contract:
 
     def ensures(sh, a, ret):
         op, src, dst, t, shape = a
-        el = sh["bits"] // 8
+        el = ((sh["bits"] + 7) // 8)  # bytes an element occupies: ceil(bits / 8)
         rep = [e for e in ret if e[0] == "replace_op"]
         check("the copy is replaced by exactly one DMA call or loop nest", len(rep) == 1 and rep[0][1] is op and len(rep[0][2]) == 1)
         levels = []
@@ -195,7 +197,7 @@ from xdsl.dialects.builtin import DYNAMIC_INDEX  # noqa: E402
 @contract
 class get_total_size_op_contract:
     target = "snaxc.transforms.snax_copy_to_dma.get_total_size_op"
-    shapes = [dict(rank=r, bits=b) for r in (1, 2, 3, 4) for b in (8, 16, 64)]
+    shapes = [dict(rank=r, bits=b) for r in (1, 2, 3, 4) for b in (8, 16, 64)] + [dict(rank=r, bits=b) for r in (1, 2) for b in (1, 12)]
     quick = lambda sh: sh["rank"] <= 3
     native = False
     total = True
@@ -209,7 +211,7 @@ class get_total_size_op_contract:
         n = 1
         for d in range(sh["rank"]):
             n = n * a[0].rt_shape[d]
-        check("den(total size) == element bytes * product of the run-time shape", den(total) == (sh["bits"] // 8) * n)
+        check("den(total size) == element bytes * product of the run-time shape", den(total) == ((sh["bits"] + 7) // 8) * n)
         check("the size op is in the returned op list, after everything it uses", ops[-1] is total)
 
     def canary(sh, a, ret):
@@ -219,7 +221,7 @@ class get_total_size_op_contract:
 @contract
 class MatchSimpleCopy_contract:
     target = "snaxc.transforms.snax_copy_to_dma.MatchSimpleCopy.match_and_rewrite"
-    shapes = [dict(rank=r, bits=b, layout=l) for r in (1, 2, 3) for b in (8, 32) for l in ("none", "src_tsl", "dst_strided")]
+    shapes = [dict(rank=r, bits=b, layout=l) for r in (1, 2, 3) for b in (8, 32) for l in ("none", "src_tsl", "dst_strided")] + [dict(rank=1, bits=b, layout="none") for b in (1, 12)]
     native = False
     total = True
     permissive = True
@@ -250,7 +252,7 @@ class MatchSimpleCopy_contract:
                 n = n * x
             check("one 1-D transfer of all bytes between the two aligned pointers",
                   call.callee.string_value() == "snax_dma_1d_transfer" and den(call.operands[0]) == src.rt_ptr and den(call.operands[1]) == dst.rt_ptr
-                  and den(call.operands[2]) == (sh["bits"] // 8) * n)
+                  and den(call.operands[2]) == ((sh["bits"] + 7) // 8) * n)
 
     def canary(sh, a, ret):
         check("canary: never rewritten", len(ret) == 0 and sh["layout"] == "none")
